@@ -149,6 +149,7 @@ func c16SocketTimeout(rt *rapid.T) {
 	}
 	sj, _ := json.Marshal(spec)
 	verdict := isolated("c16sock", []string{string(sj)}, nil)
+	verdict = harnessTrouble(verdict)
 	if strings.HasPrefix(verdict, "FAIL:") {
 		rt.Fatalf("%s\nspec %s", verdict, sj)
 	}
